@@ -22,7 +22,7 @@ pub struct TexSpec {
     pub name: String,
     /// index into the 9 supported 3DS formats (ignored for TPL: CI8 + RGB5A3 palette)
     pub fmt: u8,
-    /// 3DS: side = 8 << (w % 3); TPL: 1 + w % 64
+    /// 3DS: side = 256 for w >= 250, else 8 << (w % 3); TPL: 1 + w % 64
     pub w: u8,
     pub h: u8,
     pub seed: u64,
@@ -83,7 +83,8 @@ fn build(case: &Case) -> (BuiltContainer, Vec<Tex>, Vec<TplImage>) {
             .iter()
             .map(|t| {
                 let fmt = FORMATS[t.fmt as usize % 9];
-                let (w, h) = (8usize << (t.w % 3), 8usize << (t.h % 3));
+                let side = |x: u8| if x >= 250 { 256usize } else { 8usize << (x % 3) }; // ~2 % of random sides are 256
+                let (w, h) = (side(t.w), side(t.h));
                 Tex { name: t.name.clone(), w, h, fmt, payload: payload_for(fmt, w, h, &Fill::Random(t.seed)), mip_tail: if t.seed % 5 == 0 { crate::engine::prop::Mix64(t.seed ^ 77).bytes(fmt.payload_len(w, h) / 4 + fmt.payload_len(w, h) / 16) } else { Vec::new() } }
             })
             .collect();
@@ -115,7 +116,7 @@ impl Prop for C20 {
     type Case = Case;
     const ID: &'static str = "C20";
     fn rule() -> String {
-        "Lists of 0..=6 textures (names from ASCII letters/digits/punctuation, half-width kana and kanji - no format characters; Shift-JIS in CTPK, UTF-8 in BCH/CGFX, none in TPL; sides 8/16/32 for the 3DS containers, any 1..=64 for TPL; any of the 9 supported formats (CI8 + RGB5A3 palette for TPL); random payloads) \
+        "Lists of 0..=6 textures (names from ASCII letters/digits/punctuation, half-width kana and kanji - no format characters; Shift-JIS in CTPK, UTF-8 in BCH/CGFX, none in TPL; sides 8/16/32 (occasionally 256) for the 3DS containers, any 1..=64 for TPL; any of the 9 supported formats (CI8 + RGB5A3 palette for TPL); random payloads) \
          x container in {CTPK, BCH, CGFX, TPL} x placement (0 = usual layout; otherwise a seeded conforming layout: CTPK names before/after payloads with gaps and arbitrary per-texture offsets; BCH both header shapes (compat byte <= 20 / >= 0x21), the four sections in any order with gaps, pointer table before/after the records; \
          CGFX TXOBs in any order after the DICT, names and payloads in any order after them, forward self-relative offsets, every fifth texture with a mip chain stored after its top level (size field = whole chain); TPL table, headers, palette and image data in any order). Oracle, full file: Ok, same count and order, names equal where stored, dimensions equal, pixel data equal to the reference decoding of that texture's own payload (and to mila's decoding of the same payload in a single-texture CTPK). \
          Wrong magic (BCH, CGFX, TPL; a random 32-bit value, or a single differing byte at each of the four positions) => Err. Strict prefixes (every cut for files <= 4 KiB quick / 64 KiB thorough, otherwise all cuts in the first 1 KiB, payload boundaries +-1 and a stride): no panic in either build, and Err whenever the cut lies before the end of some non-empty payload. \
@@ -168,6 +169,14 @@ impl Prop for C20 {
                         }
                     }
                 }
+            }
+        }
+        // a texture of 65 536 pixels (w, h >= 250 select a side of 256 in `build`) next to a small one
+        for container in [Container::Ctpk, Container::Bch, Container::Cgfx] {
+            let mine = idx % nshards == shard;
+            idx += 1;
+            if mine && !f(Case { container, texs: vec![TexSpec { name: "big".into(), fmt: 5, w: 255, h: 255, seed: 9 }, TexSpec { name: "small".into(), fmt: 4, w: 0, h: 0, seed: 10 }], placement: 0, mode: Mode::Full }) {
+                return;
             }
         }
     }
